@@ -73,7 +73,7 @@ ASSUMPTIONS = [
     "comparison / arithmetic operators except ** << >>, brackets, quotes, blanks); length cells get no whole number "
     "in 10**4 .. 2**63; RegEx rules no nested quantifiers; RegEx / Pattern rules not the 10 kB text - harness "
     "safety, not a claim about cutplace",
-    "a case that exceeds 3 s (observed: xlrd spinning on a damaged sector chain of an .xls file) is counted as class 'timeout' and not judged (cost is not one of the listed properties)",
+    "a case that uses more than 3 s of processor time (observed: xlrd spinning on a damaged sector chain of an .xls file) is counted as class 'timeout' and not judged (cost is not one of the listed properties)",
     "whether an accepted hostile value is *rightly* accepted, and which cutplace error class is chosen among the "
     "permitted ones, is neutral here (C02, C09, C11 judge that)",
     "within one case the same (exception type, innermost cutplace frame) is reported for the first stage showing "
@@ -453,18 +453,19 @@ def _on_alarm(signum, frame):
 
 
 def _arm():
-    """Start the per-case time limit. The timer repeats, so a _Timeout swallowed somewhere (for example inside a
+    """Start the per-case limit of processor time (not wall time: a busy machine must not change outcomes). The
+    timer repeats, so a _Timeout swallowed somewhere (for example inside a
     garbage collector callback) is raised again shortly afterwards."""
-    signal.signal(signal.SIGALRM, _on_alarm)
+    signal.signal(signal.SIGPROF, _on_alarm)
     _ARMED[0] = True
-    signal.setitimer(signal.ITIMER_REAL, TIME_LIMIT_S, 0.2)
+    signal.setitimer(signal.ITIMER_PROF, TIME_LIMIT_S, 0.2)
 
 
 def _disarm():
     while True:
         try:
             _ARMED[0] = False
-            signal.setitimer(signal.ITIMER_REAL, 0)
+            signal.setitimer(signal.ITIMER_PROF, 0)
             return
         except _Timeout:
             continue
